@@ -117,6 +117,15 @@ class _SubprocessThread(Thread):
 
                 if proc.poll() is not None:
                     break
+
+            # the process has ended, but the pipes may still hold output
+            rest = output_as_str(proc.stdout.read())
+            sys.stdout.write(rest)
+            self.stdout_result += rest
+            if self._stderr == PIPE:
+                rest = output_as_str(proc.stderr.read())
+                sys.stderr.write(rest)
+                self.stderr_result += rest
         else:
             stdout_r, stderr_r = proc.communicate()
             self.stdout_result = output_as_str(stdout_r)
